@@ -74,4 +74,16 @@ def safeAction : Action → Bool
 /-- a schedule without swallowed conflicts between the two writes of one invocation -/
 def safeSchedule (acts : List Action) : Bool := acts.all safeAction
 
+/-- the side-map transaction of some configuration write of this step fails (possible only after
+    `store` wrote an entry with the content of another path, see the loop-variable finding): the
+    reconciler swallows the resulting conflict -/
+def stepStoreFail (s : Sys) : Action → Bool
+  | .tx i verdict ans inj last => (stepTx s i verdict ans inj last).2.storeFail
+  | _ => false
+
+/-- along the run from `s`, no side-map transaction of the transaction reconciler fails -/
+def storeNeverFails (s : Sys) : List Action → Bool
+  | [] => true
+  | a :: rest => !stepStoreFail s a && storeNeverFails (step s a) rest
+
 end OnosVerif.V3
